@@ -64,4 +64,36 @@ PROPS = {
         "unproved": [],
         "assumptions": [],
     },
+    "C19": {
+        "level": "proof",
+        "technique": "Coq proof over the ideal-real instance of the Clenshaw model (Coq-Interval `interval` tactic, whole latitude interval) + interval-arithmetic correspondence + dense-grid search",
+        "claim_text": "Kernel-checked theorems about the ideal-real model (the code as if f64 were R and libm exact), with the coefficient arrays taken from the regenerated tables: both round trips <= 1e-12 rad for EVERY latitude in [-pi/2, pi/2]; odd; fixes 0 and +-pi/2 exactly; strictly increasing (derivative >= 0.99); maps the interval into itself; |sin(fwd x) - q(x)/q(pi/2)| <= 1e-15 on the whole quadrant against the closed-form WGS84 authalic latitude (this notices a consistent edit of both series); lon/lat -> sphere -> lon/lat returns the longitude exactly and the latitude within 2e-12 rad, and longitudes 360k apart differ by 2k*(f64 PI) in theta. The implementation's f64 results are tied to the model by containment in 100-bit interval enclosures +-1.1e-13.",
+        "level_note": "Idealisation: theorems are over R (IEEE-754 rounding and the platform libm are outside the model; per-call f64 error ~1e-16 is covered only by the correspondence and the search, which are testing). Axioms: the standard library's real-number axioms (sig_forall_dec, sig_not_dec), Classical_Prop.classic, functional_extensionality_dep, and the Uint63/PrimFloat primitives with their stdlib specification axioms used by Coq-Interval. Trusted: model of apply_coefficients / from_lon_lat / to_lon_lat, table dump, Interval's operators for the executable instance.",
+        "design_ref": "DESIGN.md section 5 (C19)",
+        "coq_targets": ["theories/Props/C19.vo", "theories/Corr/GeoCases.vo"],
+        "corr": True,
+        "corr_rule": "authalic forward/inverse on a latitude grid + random + endpoints, from_lon_lat / to_lon_lat on lon in [-540,540] x lat in [-90,90] incl. poles and antimeridian: implementation value inside the model's 100-bit interval enclosure +-2^-43 (degrees: +-2^-36)",
+        "proved_full": ["C19_authalic_roundtrip_fwd", "C19_authalic_roundtrip_inv", "C19_authalic_fwd_odd", "C19_authalic_fixes",
+                        "C19_authalic_fwd_increasing", "C19_authalic_fwd_range", "C19_authalic_closed_form_strong",
+                        "C19_lonlat_roundtrip", "C19_lon_periodic"],
+        "unproved": ["f64 rounding error of the evaluation (ideal reals in the theorems)"],
+        "assumptions": ["ideal-real arithmetic", "coefficient tables as dumped from the built crate"],
+        "coq_timeout": 3600,
+    },
+    "C18": {
+        "level": "proof",
+        "technique": "Coq proof over the ideal-real model (trigonometric identity, induction over the face list, `interval` on the 66 face pairs) + frozen-reference table equality + interval correspondence + seam-point search",
+        "claim_text": "Kernel-checked theorems: the distance used to pick a face equals (1 - <p,a>)/2 for all points, hence the chosen face centre maximises the dot product (= minimises great-circle distance) for EVERY point, ties going to the first face in table order; the 12 axes of the regenerated tables are pairwise antipodal or at +-1/sqrt5 within 1e-15, each with exactly one antipode and five neighbours; face 0 is the north pole, LONGITUDE_OFFSET = 93; quaternion i rotates the pole onto axis i and its conjugate back; the quintant<->segment relabelling (dumped by calling the functions) is a bijection preserving the orientation in both directions on all 12 x 5; axes, quaternions, first quintants, orientation layouts and the relabelling equal the frozen reference release.",
+        "level_note": "Idealisation: ideal reals (f64 and libm outside the model). Axioms: stdlib real-number axioms, classic, functional extensionality, Uint63 primitives/specs used by Coq-Interval. Trusted: model of haversine / find_nearest_origin / transform_quat, table dump, frozen TablesRef.v (dumped once from the pinned release).",
+        "design_ref": "DESIGN.md section 5 (C18)",
+        "coq_targets": ["theories/Props/C18.vo", "theories/Corr/GeoCases.vo"],
+        "corr": True,
+        "corr_rule": "find_nearest_origin on uniform points, points 1e-2..1e-9 from the 30 seams and points at/near face centres, and haversine values: the implementation's choice equals the interval model's (undecided comparisons counted as ambiguous), values inside the enclosure +-2^-43",
+        "proved_full": ["C18_haversine_is_chord", "C18_nearest_is_nearest", "C18_frame_pairs", "C18_frame_antipodes",
+                        "C18_frame_five_neighbours", "C18_quaternions_place_axes", "C18_relabel_roundtrip_forall",
+                        "C18_frame_tables_frozen"],
+        "unproved": ["f64 rounding in the nearest-face comparison (ties on seams are excluded by the property)"],
+        "assumptions": ["ideal-real arithmetic", "tables as dumped from the built crate"],
+        "coq_timeout": 3600,
+    },
 }
